@@ -427,12 +427,13 @@ class _VersionIndependentUnmarshaller:
         ret = self.r_ref(dict(), save_ref)
         # dictionary
         while True:
+            # A dict ends with a NULL ('0') key; None ('N') is a valid key or value.
+            byte1 = self.fp.read(1)
+            if byte1 in (b"0", b""):
+                break
+            self.fp.seek(-1, 1)
             key = self.r_object(bytes_for_s=bytes_for_s)
-            if key is None:
-                break
             val = self.r_object(bytes_for_s=bytes_for_s)
-            if val is None:
-                break
             ret[key] = val
             pass
         return ret
